@@ -707,6 +707,13 @@ class SMCSamples(BaseSamples):
             log_evidence_error=self.log_evidence_error,
         )
 
+    def to_namespace(self, xp, dtype: Any | str | None = None):
+        samples = super().to_namespace(xp, dtype=dtype)
+        samples.beta = self.beta
+        samples.log_evidence = self.log_evidence
+        samples.log_evidence_error = self.log_evidence_error
+        return samples
+
     def to_numpy(self):
         return self.__class__(
             x=to_numpy(self.x),
